@@ -93,6 +93,15 @@ one = Node(1, None)
 }
 
 
+PROJECTS = {
+    'star-import-cycle': ({'a.py': 'from b import *\nxa = 1\n', 'b.py': 'from a import *\nxb = 2\n', 'c.py': 'from a import xa, xb\nfrom b import *\nxc = 3\n'},
+                          [('a.', 'import a\na.', (2, 2)), ('b.', 'import b\nb.', (2, 2)), ('c.', 'import c\nc.', (2, 2)),
+                           ('from a import *', 'from a import *\nx', (2, 1)), ('from b import *', 'from b import *\nx', (2, 1))]),
+    'from-import-cycle': ({'p.py': 'from q import qv\npv = 1\ndef pf(): return qv\n', 'q.py': 'from p import pv\nqv = 2\nclass Q:\n    attr = pv\n'},
+                          [('p.', 'import p\np.', (2, 2)), ('q.', 'import q\nq.', (2, 2)), ('q.Q.', 'import q\nq.Q.', (2, 4)), ('p.pf().', 'import p\np.pf().', (2, 7))]),
+}
+
+
 def requests_for(text):
     """one completion request per top-level name bound to a value, through `import m`"""
     import ast
@@ -131,7 +140,7 @@ finally:
 
 
 @harness(['C04', 'C09'], 'supp.assistant.assist / supp.linter.lint on one long-lived Project [every ordered pair of requests]',
-         bounded='4 project modules (mutually recursive functions with a base case, attributes assigned on values reached through self, a class '
+         bounded='2 projects whose modules import each other in cycles (star imports, from-imports), every request sequence of length 2 and 3; 4 project modules (mutually recursive functions with a base case, attributes assigned on values reached through self, a class '
                  'hierarchy evaluated through its instances and through a merged value, loop-carried values) x every ordered pair of requests '
                  '(completion of every top-level name, of the module itself, lint of the module) on one Project, compared with the second '
                  'request alone on a fresh Project')
@@ -189,6 +198,39 @@ def request_pairs(run):
                 prove('%s:every-order-gives-the-same-answers' % mname, not bad,
                       clause='%d request histories on module %r, %d whose last answer differs from the answer on a fresh project' % (n, mname, len(bad)), path=path)
                 prove('%s:answers-are-not-trivial' % mname, any(isinstance(v, list) and v for v in alone.values()), kind='lemma', path=path)
+            finally:
+                shutil.rmtree(top, ignore_errors=True)
+        for pname, (files, reqs) in PROJECTS.items():
+            top = tempfile.mkdtemp(prefix='supp-c04-')
+            try:
+                for fn, body in files.items():
+                    with open(os.path.join(top, fn), 'w') as f:
+                        f.write(body)
+
+                def ask2(project, req):
+                    with project.check_changes():
+                        try:
+                            return A.assist(project, req[1], req[2], os.path.join(top, 'edited.py'))[1]
+                        except Exception as e:
+                            return '<raised %s>' % type(e).__name__
+                alone = {r[0]: ask2(Pj.Project([top]), r) for r in reqs}
+                bad = []
+                n = 0
+                for k in (2, 3):
+                    for seq in itertools.permutations(reqs, k):
+                        p = Pj.Project([top])
+                        for q in seq[:-1]:
+                            ask2(p, q)
+                        got = ask2(p, seq[-1])
+                        n += 1
+                        if got != alone[seq[-1][0]]:
+                            bad.append((seq, got))
+                for seq, got in bad[:3]:
+                    prove('%s:%s-after-%s' % (pname, seq[-1][0], '+'.join(q[0] for q in seq[:-1])), False,
+                          clause='the answer to %s after %s differs from the answer alone [%r vs %r]; files %r' % (
+                              seq[-1][0], [q[0] for q in seq[:-1]], got, alone[seq[-1][0]], files), path=path)
+                prove('%s:every-order-gives-the-same-answers' % pname, not bad,
+                      clause='%d request histories on project %r, %d whose last answer differs from the answer on a fresh project' % (n, pname, len(bad)), path=path)
             finally:
                 shutil.rmtree(top, ignore_errors=True)
     core.explore(lambda: None, lambda p, out: go(p))
